@@ -259,7 +259,7 @@ fn run_scenario(v: &Value, base: &Path) -> Value {
     let root = base.join(format!("t{}", seed % 1000003));
     let _ = std::fs::remove_dir_all(&root);
     std::fs::create_dir_all(&root).unwrap();
-    build_tree(&root, &entries, &errs);
+    build_tree(&root, &entries.iter().filter(|e| e.as_str() != "<stdin>").cloned().collect::<Vec<_>>(), &errs);
     // an ignore file with an unparsable line in the directory ABOVE the roots: every root reports the error through
     // its visitor (Worker::run_one, add_parents) and is then walked as usual
     let badparent = v["badparent"].as_bool().unwrap_or(false);
@@ -307,11 +307,17 @@ fn run_scenario(v: &Value, base: &Path) -> Value {
     });
     ignore::verif::set_hook(Some(sched.clone()));
 
-    let mut wb = WalkBuilder::new(root.join(&roots[0]));
+    // the root "<stdin>" is the standard-input entry (given to the builder as "-", never looked up in the file system; its
+    // path reads "<stdin>"), any other one a path of the tree
+    let root_path = |r: &String| if r == "<stdin>" { PathBuf::from("-") } else { root.join(r) };
+    let mut wb = WalkBuilder::new(root_path(&roots[0]));
     for r in &roots[1..] {
-        wb.add(root.join(r));
+        wb.add(root_path(r));
     }
     wb.threads(threads).standard_filters(false).follow_links(!errs.is_empty());
+    if v["samefs"].as_bool().unwrap_or(false) {
+        wb.same_file_system(true);
+    }
     if badparent {
         wb.ignore(true).parents(true);
     }
